@@ -182,6 +182,19 @@ def gen(shard, rng, tier):
                     tags.append("repeat-between" if (others_before and others_after) else "repeat-after" if others_before else "repeat-before")
             yield from both(_hash_case(text, shape or "random", tags))
     elif name == "domains":
+        dom = '"EIP712Domain":[{"name":"name","type":"string"}]'
+        for n in (255, 256, 257, 1000):
+            # arrays with more than 255 elements, strings / bytes longer than 255 and 65535 bytes, structs with many members
+            arr = ",".join(str(rng.randrange(256)) for _ in range(n))
+            yield from both(_hash_case('{"types":{%s,"P":[{"name":"v","type":"uint8[]"},{"name":"w","type":"uint8[%d]"}]},"primaryType":"P",'
+                                       '"domain":{"name":"x"},"message":{"v":[%s],"w":[%s]}}' % (dom, n, arr, arr), "big-array"))
+            members = ",".join('{"name":"m%d","type":"uint16"}' % i for i in range(n if n <= 257 else 300))
+            vals = ",".join('"m%d":%d' % (i, rng.randrange(65536)) for i in range(n if n <= 257 else 300))
+            yield from both(_hash_case('{"types":{%s,"P":[%s]},"primaryType":"P","domain":{"name":"x"},"message":{%s}}' % (dom, members, vals), "many-members"))
+        for n in (255, 256, 65535, 65536, 70000):
+            s = "".join(rng.choice("abcdefghij") for _ in range(n))
+            yield from both(_hash_case('{"types":{%s,"P":[{"name":"s","type":"string"},{"name":"b","type":"bytes"}]},"primaryType":"P",'
+                                       '"domain":{"name":"%s"},"message":{"s":"%s","b":"0x%s"}}' % (dom, s[:300], s, s.encode().hex()), "long-string"))
         for _ in range(shard["reps"]):
             for dom in tdgen.domain_subsets():
                 text, _ = tdgen.rand_document(rng, domain_fields=dom)
